@@ -253,8 +253,21 @@ def run_binary_representation(ctx):
         types = [ptgen.random_type(ctx.rng, depth=ctx.rng.choice([1, 2, 2]), sizes=[1, 2, 3, 2], p_unit_sum=0.1 if k % 3 == 0 else 0.0) for _ in range(nd)]
         if math.prod(ty_numel(t) for t in types) > 300:
             continue
-        t = random_pt(ctx.rng, types, defaults=[0.0, 1.0, 2.0], specials=0.0)
-        u = random_pt(ctx.rng, types, defaults=[0.0, 1.0, 3.0], specials=0.0) if ctx.rng.random() < 0.9 else t
+        ttypes = utypes = types
+        if k % 3 == 1 and nd >= 2:
+            # BROADCAST: one operand has the unit axis in some dimensions where the other has a pattern — in particular the SAME axis
+            # twice (a diagonal): every broadcast dimension gets its own fresh axis, the other operand's pattern is densified there
+            if ctx.rng.random() < 0.6:
+                i, j = ctx.rng.sample(range(nd), 2)
+                types[j] = types[i]
+            unit = [ctx.rng.random() < 0.5 for _ in types]
+            if not any(unit): unit[ctx.rng.randrange(nd)] = True
+            bt = [('atom', 1) if b_ else ty for b_, ty in zip(unit, types)]
+            ttypes, utypes = (bt, types) if ctx.rng.random() < 0.5 else (types, bt)
+            ctx.count('binary-representation.broadcast')
+        t = random_pt(ctx.rng, ttypes, defaults=[0.0, 1.0, 2.0], specials=0.0, p_share=0.6 if ttypes is not utypes else 0.3)
+        u = random_pt(ctx.rng, utypes, defaults=[0.0, 1.0, 3.0], specials=0.0, p_share=0.6 if ttypes is not utypes else 0.3) \
+            if ctx.rng.random() < 0.9 or ttypes is not utypes else t
         for name, f in OPS.items():
             ids = {}
             def enc(p_):
